@@ -227,6 +227,7 @@ func (l *List[E]) UnmarshalJSON(bytes []byte) error {
 	err := json.Unmarshal(bytes, &l.elements)
 	if err == nil {
 		l.size = len(l.elements)
+		l.elements = l.elements[:l.size:l.size]
 	}
 	return err
 }
